@@ -941,6 +941,12 @@ func runRoam(t failer, c *ev.Collector, cs RoamCase) (info roamInfo) {
 		corner := 0
 		v, err := ctl.Do(args...)
 		if err != nil {
+			var again bool
+			if v, err, again = recvAgainIfStalled(ctl, err, startGap); again {
+				c.Inconclusive("process frozen %.0fs while waiting for a reply in %s; read repeated", float64(maxGapNs.Load())/1e9, prefix)
+			}
+		}
+		if err != nil {
 			fail("transport", fmt.Sprintf("step %d: %v", n, err))
 		}
 		if v.IsErr() {
@@ -995,6 +1001,9 @@ func runRoam(t failer, c *ev.Collector, cs RoamCase) (info roamInfo) {
 		var got []rgot
 		for {
 			v, err := sub.Recv()
+			if err != nil {
+				v, err, _ = recvAgainIfStalled(sub, err, startGap)
+			}
 			if err != nil {
 				fail("channel:stream-broken", fmt.Sprintf("subscriber connection: %v", err))
 			}
@@ -1087,9 +1096,20 @@ func runRoam(t failer, c *ev.Collector, cs RoamCase) (info roamInfo) {
 					need += len(e)
 				}
 				deadline := time.Now().Add(waitBudget())
+				extended := false
 				for {
 					raw := live.st.snapshot()
-					if len(raw)-liveSeen >= need || time.Now().After(deadline) {
+					if len(raw)-liveSeen >= need {
+						break
+					}
+					if time.Now().After(deadline) {
+						// the budget may have run out while the whole process was frozen
+						time.Sleep(100 * time.Millisecond)
+						if g := maxGapNs.Load(); !extended && g > startGap && g > int64(5*time.Second) {
+							extended = true
+							deadline = time.Now().Add(waitBudget())
+							continue
+						}
 						break
 					}
 					live.st.wait(time.Until(deadline))
